@@ -121,6 +121,7 @@ theorem mainCall_S {s : State} (op : Op) (h : InvS s) : InvS (mainCall s op) := 
   | join t => exact abort_S h
   | create d now => exact abort_S h
   | cancel t => exact abort_S h
+  | resume t => exact abort_S h
   | exit => exact abort_S h
   | throw => exact abort_S h
   | rcleanup => exact abort_S h
@@ -179,6 +180,7 @@ theorem mainCall_L {s : State} (op : Op) (h : InvL s) (hS : InvS s) : InvL (main
   | join t => exact abort_L h
   | create d now => exact abort_L h
   | cancel t => exact abort_L h
+  | resume t => exact abort_L h
   | exit => exact abort_L h
   | throw => exact abort_L h
   | rcleanup => exact abort_L h
